@@ -813,6 +813,124 @@ def collapse_instrument_shells(facts):
     return out
 
 
+def thread_constant_flags(facts, anchors):
+    """`let flag = a || b; if flag {..}` lowers to: a-true -> `flag = true; goto J`, a-false -> `flag = <b>; goto J`, J: `switch flag`.
+    `if a || b {..}` lowers to the same without J: the a-true edge goes straight to the then-block and the switch is on `<b>`.
+    Where a bool local has constant AND computed definitions, all of them flowing straight into one switch on it, the constant ones
+    are threaded to the switch's targets (the assignments stay) and the switch reads the computed value (through a fresh local that
+    only the computed definitions write), so that both spellings have the same control flow.  Only user-named flags (`let flag = ..`)
+    are re-shaped: the compiler's own temporaries already have the direct form.  Flags defined by constants only
+    (`matches!(..)` turned into a bool) are left alone: rules recognise those by their definitions.  [body defs changed]"""
+    changed = []
+    for c in facts.crates:
+        for b in list(c.body_list):
+            if b.def_ not in anchors or getattr(b, "hidden", False):
+                continue
+            blocks = b.j["blocks"]
+            preds = {}
+            for bi in range(len(blocks)):
+                if blocks[bi]["cleanup"]:
+                    continue
+                for (t, _lab) in b.succ(bi):
+                    preds.setdefault(t, set()).add(bi)
+            plans = []
+            for ji, J in enumerate(blocks):
+                t = J["term"]
+                if J["cleanup"] or t["k"] != "switch" or len(t["arms"]) != 1 or t["arms"][0][0] != "0":
+                    continue
+                d = t["d"].get("move") or t["d"].get("copy")
+                if d is None or d["p"]:
+                    continue
+                # the switched temporary is a copy (chain) of the flag, made in J itself; J does nothing else
+                alias = [d["l"]]
+                ok = True
+                for st in reversed(J["stmts"]):
+                    if st["k"] in ("live", "dead", "nop"):
+                        continue
+                    if st["k"] == "assign" and not st["lhs"]["p"] and st["lhs"]["l"] == alias[-1] and "use" in st["rv"]:
+                        src = st["rv"]["use"].get("copy") or st["rv"]["use"].get("move")
+                        if src is not None and not src["p"]:
+                            alias.append(src["l"])
+                            continue
+                    ok = False
+                    break
+                if not ok:
+                    continue
+                flag = alias[-1]
+                if not b.lname(flag) or t.get("exp"):
+                    continue      # a temporary of `if a && b` / a match guard: that IS the direct form; only a `let flag = ..` written
+                    #               in the source (not `let enabled = ..` of a tracing macro) is re-shaped
+                consts, computed = [], []
+
+                def transparent(P):
+                    # only storage markers, left by `goto` or a `drop` (of a temporary of the flag's own `let` statement)
+                    return all(st["k"] in ("live", "dead", "nop") for st in P["stmts"]) and P["term"]["k"] in ("goto", "drop")
+
+                work = [(pi, []) for pi in sorted(preds.get(ji, ()))]
+                seen_t = set()
+                while work and ok:
+                    di, path = work.pop()
+                    D = blocks[di]
+                    tk = D["term"]["k"]
+                    nxt_bb = path[0] if path else ji
+                    if tk == "goto" and D["stmts"] and D["term"]["t"] == nxt_bb:
+                        last = D["stmts"][-1]
+                        if last["k"] == "assign" and not last["lhs"]["p"] and last["lhs"]["l"] == flag:
+                            cu = last["rv"].get("use", {}).get("const") if "use" in last["rv"] else None
+                            if isinstance(cu, dict) and isinstance(cu.get("bool"), bool):
+                                consts.append((di, cu["bool"], path))
+                            else:
+                                computed.append((di, "stmt"))
+                            continue
+                    if tk == "call" and D["term"].get("t") == nxt_bb and not D["term"]["dest"]["p"] and D["term"]["dest"]["l"] == flag:
+                        computed.append((di, "call"))
+                        continue
+                    if transparent(D) and D["term"].get("t") == nxt_bb and len(path) < 4 and di != ji and not D["cleanup"]:
+                        if di not in seen_t:
+                            seen_t.add(di)
+                        for pi in sorted(preds.get(di, ())):
+                            work.append((pi, [di] + path))
+                        if not preds.get(di):
+                            ok = False
+                        continue
+                    ok = False
+                if ok and consts and computed:
+                    plans.append((ji, flag, consts, computed))
+            if not plans:
+                continue
+            nj = copy.deepcopy(b.j)
+            nb_blocks = nj["blocks"]
+            for (ji, flag, consts, computed) in plans:
+                t = nb_blocks[ji]["term"]
+                for (di, val, path) in consts:
+                    tgt = t["otherwise"] if val else t["arms"][0][1]
+                    # the drops between the definition and the switch are taken along (copies of those blocks, ending at the target)
+                    for pb_i in reversed(path):
+                        cl = copy.deepcopy(b.j["blocks"][pb_i])
+                        cl["term"] = dict(cl["term"], t=tgt)
+                        nb_blocks.append(cl)
+                        tgt = len(nb_blocks) - 1
+                    nb_blocks[di]["term"] = dict(nb_blocks[di]["term"], t=tgt, threaded=True)
+                fresh = len(nj["locals"])
+                nj["locals"].append(copy.deepcopy(nj["locals"][flag]))
+                for (di, how) in computed:
+                    if how == "stmt":
+                        nb_blocks[di]["stmts"][-1]["lhs"] = {"l": fresh, "p": []}
+                    else:
+                        nb_blocks[di]["term"]["dest"] = {"l": fresh, "p": []}
+                sp = t.get("sp")
+                # J: the flag itself still gets its value (later readers), the switch reads the computed one
+                nb_blocks[ji]["stmts"] = [{"k": "assign", "lhs": {"l": flag, "p": []}, "rv": {"use": {"copy": {"l": fresh, "p": []}}}, "sp": sp, "exp": None}] \
+                    + [st for st in nb_blocks[ji]["stmts"] if st["k"] in ("live", "dead", "nop")]
+                nb_blocks[ji]["term"] = dict(t, d={"copy": {"l": fresh, "p": []}})
+            nb = Body(c, nj)
+            nb.hidden = getattr(b, "hidden", False)
+            c.bodies[nb.def_] = nb
+            c.body_list[c.body_list.index(b)] = nb
+            changed.append(b.def_)
+    return changed
+
+
 def apply(facts, anchors, pinned):
     """Inline until a fixpoint (bounded). Replaces anchor bodies in `facts`; inlined helpers are hidden from all_bodies()."""
     done = []
@@ -939,4 +1057,5 @@ def apply(facts, anchors, pinned):
                 facts.inlined = done
         if not adopted_now:
             break
+    thread_constant_flags(facts, anchors)
     return done
